@@ -93,3 +93,34 @@ void drv_thr_call_copy(suspend_point<bool> *out, promise<c01_thr> *p, const c01_
 void drv_thr_pdtor(promise<c01_thr> *p) { p->~promise<c01_thr>(); }
 void drv_thr_fdtor(future<c01_thr> *f) { f->~future<c01_thr>(); }
 }
+
+// ==== W4: promise_with_default<int> (specs/C01/pwd_spec.h) and promise<T>::bind() (specs/C01/bind_spec.h) ====
+// bound payloads of 64 and 200 bytes: an int in front, an int at the very end (both observed by the contracts)
+struct c01_big64 { int v; char pad[56]; int tail; };
+struct c01_big200 { int v; char pad[192]; int tail; };
+static_assert(sizeof(c01_big64) == 64 && sizeof(c01_big200) == 200, "payload sizes");
+// whatever bind() returns (today: the closure type of the lambda in promise<T>::bind)
+using c01_bind_int_t = decltype(std::declval<promise<int> &>().bind(std::declval<int &>()));
+using c01_bind_b64_t = decltype(std::declval<promise<c01_big64> &>().bind(std::declval<c01_big64 &>()));
+using c01_bind_b200_t = decltype(std::declval<promise<c01_big200> &>().bind(std::declval<c01_big200 &>()));
+extern "C" {
+// ---- promise_with_default<int>
+void drv_pwd_ctor(promise_with_default<int> *out, promise<int> *src, int d) { new(out) promise_with_default<int>(std::move(*src), d); }
+void drv_pwd_dtor(promise_with_default<int> *p) { p->~promise_with_default<int>(); }
+void drv_pwd_move(promise_with_default<int> *out, promise_with_default<int> *src) { new(out) promise_with_default<int>(std::move(*src)); }
+void drv_pwd_move_assign(promise_with_default<int> *dst, promise_with_default<int> *src) { *dst = std::move(*src); }
+// ---- bind(): create the closure, call it, destroy it
+void drv_bind_int(c01_bind_int_t *out, promise<int> *p, int *v) { new(out) c01_bind_int_t(p->bind(*v)); }
+void drv_bind_int_call(suspend_point<bool> *out, c01_bind_int_t *c) { new(out) suspend_point<bool>((*c)()); }
+void drv_bind_int_dtor(c01_bind_int_t *c) { c->~c01_bind_int_t(); }
+void drv_bind_b64(c01_bind_b64_t *out, promise<c01_big64> *p, c01_big64 *v) { new(out) c01_bind_b64_t(p->bind(*v)); }
+void drv_bind_b64_call(suspend_point<bool> *out, c01_bind_b64_t *c) { new(out) suspend_point<bool>((*c)()); }
+void drv_bind_b64_dtor(c01_bind_b64_t *c) { c->~c01_bind_b64_t(); }
+void drv_bind_b200(c01_bind_b200_t *out, promise<c01_big200> *p, c01_big200 *v) { new(out) c01_bind_b200_t(p->bind(*v)); }
+void drv_bind_b200_call(suspend_point<bool> *out, c01_bind_b200_t *c) { new(out) suspend_point<bool>((*c)()); }
+void drv_bind_b200_dtor(c01_bind_b200_t *c) { c->~c01_bind_b200_t(); }
+}
+// ---- future<void>::has_value(): the awaiter it hands out (C02 unit fv_has_value: specs/C02/w_spec.h)
+extern "C" {
+void drv_v_has_value(future<void>::awaitable_bool *out, const future<void> *f) { new(out) future<void>::awaitable_bool(f->has_value()); }
+}
